@@ -73,9 +73,66 @@ def attr_uses(attrs, kinds=("Load", "fmt")):
     return sorted(out)
 
 
+def bonds_tables():
+    """offsets literal of find_bonds_for_atoms_using_boxes, distance constants and the distances dict of BondMaker"""
+    import fractions
+    tree = ast.parse((common.REPO / "propka" / "bonds.py").read_text())
+    consts = {}
+    for n in tree.body:
+        if isinstance(n, ast.Assign) and len(n.targets) == 1 and isinstance(n.targets[0], ast.Name) \
+                and isinstance(n.value, ast.Constant) and isinstance(n.value.value, (int, float)):
+            consts[n.targets[0].id] = fractions.Fraction(str(n.value.value))
+    offsets = None
+    special = None
+    for n in ast.walk(tree):
+        if isinstance(n, ast.FunctionDef) and n.name == "find_bonds_for_atoms_using_boxes":
+            for m in ast.walk(n):
+                if isinstance(m, ast.For) and isinstance(m.iter, ast.List) and all(isinstance(e, ast.Tuple) and len(e.elts) == 3 for e in m.iter.elts):
+                    try:
+                        offsets = [tuple(ast.literal_eval(x) for x in e.elts) for e in m.iter.elts]
+                    except Exception as ex:
+                        TABLE_ERRORS["offsets"] = str(ex)
+        if isinstance(n, ast.FunctionDef) and n.name == "__init__":
+            for m in ast.walk(n):
+                if isinstance(m, ast.Assign) and len(m.targets) == 1 and isinstance(m.targets[0], ast.Attribute) \
+                        and m.targets[0].attr == "distances" and isinstance(m.value, ast.Dict):
+                    special = []
+                    for k, v in zip(m.value.keys, m.value.values):
+                        if isinstance(k, ast.Constant) and isinstance(v, ast.Name) and v.id in consts:
+                            special.append((k.value, consts[v.id]))
+                        else:
+                            TABLE_ERRORS["distances"] = ast.dump(m.value)[:200]
+    if offsets is None:
+        TABLE_ERRORS["offsets"] = "offsets literal not found"
+        offsets = []
+    if special is None:
+        TABLE_ERRORS["distances"] = "self.distances literal not found"
+        special = []
+    return consts, offsets, special
+
+
 def regenerate():
     TABLE_ERRORS.clear()
     written = []
+    consts, offsets, special = bonds_tables()
+    q = lambda fr: f"({fr.numerator} # {fr.denominator})"
+    bt = ["(* GENERATED by tools/vlib/tables.py from propka/bonds.py - do not edit *)",
+          "From Coq Require Import String List ZArith QArith.", "Import ListNotations.", "Open Scope string_scope.", "",
+          "Definition offsets : list (Z * Z * Z) :=\n  " + clist([f"(({a})%Z, ({b})%Z, ({c})%Z)" for a, b, c in offsets]) + ".",
+          "Definition bond_consts : list (string * Q) :=\n  " + clist([f"({cstr(k)}, {q(v)})" for k, v in sorted(consts.items())]) + ".",
+          "Definition special_distances : list (string * Q) :=\n  " + clist([f"({cstr(k)}, {q(v)})" for k, v in special]) + ".", ""]
+    # element symbols known to the protonator (keys of Protonate.valence_electrons)
+    elems = []
+    ptree = ast.parse((common.REPO / "propka" / "protonate.py").read_text())
+    for n in ast.walk(ptree):
+        if isinstance(n, ast.Assign) and len(n.targets) == 1 and isinstance(n.targets[0], ast.Attribute) \
+                and n.targets[0].attr == "valence_electrons" and isinstance(n.value, ast.Dict):
+            elems = [k.value for k in n.value.keys if isinstance(k, ast.Constant)]
+    if not elems:
+        TABLE_ERRORS["valence_electrons"] = "literal not found"
+    bt.insert(-1, "Definition known_elements : list string :=\n  " + clist([cstr(e) for e in elems]) + ".")
+    if common.write_if_changed(common.GEN / "Bonds_gen.v", "\n".join(bt) + "\n"):
+        written.append("Bonds_gen")
     inv = ["(* GENERATED by tools/vlib/tables.py: inventories of attribute readers in propka/*.py - do not edit *)",
            "From Coq Require Import String List.", "Import ListNotations.", "Open Scope string_scope.", "",
            "(* every read (incl. format strings) of the atom attributes numb / occ / beta *)",
